@@ -26,6 +26,7 @@ import (
 	"github.com/btcsuite/btcwallet/wtxmgr"
 	"github.com/lightninglabs/lndclient"
 	"github.com/lightninglabs/pool/account"
+	"github.com/lightninglabs/pool/internal/test"
 	"github.com/lightninglabs/pool/order"
 	"github.com/lightninglabs/pool/poolscript"
 	"github.com/lightninglabs/pool/terms"
@@ -82,6 +83,11 @@ type c04Params struct {
 	// order of Batch.AccountDiffs (all share Auct and Batch)
 	Accts        []c04BatchAcct `json:"accts,omitempty"`
 	BatchVersion uint32         `json:"batch_version"`
+
+	// mgrbatch path: a full batch proposal (shared C01-C03 generator, honest
+	// auctioneer) that goes through order.NewManager(...).Start(),
+	// OrderMatchValidate and BatchSign
+	MgrCase json.RawMessage `json:"mgr_case,omitempty"`
 }
 
 // c04BatchAcct is one account of a batch with the diff the auctioneer sends.
@@ -930,6 +936,207 @@ func c04Describe(sp *c04Spend, sk *c04Keys, amount int64) {
 	}
 }
 
+// c04BPriv finds the private key of a key of the shared batch generator's
+// key pool (bKey(i) = pub(sha256("verif-batch-key-i"))).
+func c04BPriv(pubHex string) *btcec.PrivateKey {
+	for i := 0; i < 400; i++ {
+		if bKeyHex(i) == pubHex {
+			h := sha256.Sum256([]byte(fmt.Sprintf("verif-batch-key-%d", i)))
+			priv, _ := btcec.PrivKeyFromBytes(h[:])
+			return priv
+		}
+	}
+	return nil
+}
+
+// c04OrderStore: the shared order store mock plus the staging call BatchSign
+// makes before it signs (accepted, nothing persisted).
+type c04OrderStore struct {
+	*bStore
+}
+
+func (s *c04OrderStore) StorePendingBatch(*order.Batch, []order.Nonce, [][]order.Modifier,
+	[]*account.Account, [][]account.Modifier) error {
+	return nil
+}
+
+// c04RunMgrBatch sends an honest batch proposal (matched orders, fees, channel
+// and re-created account outputs, expiry extensions and version upgrades
+// according to the batch version) through the REAL order manager as wired by
+// Start(): OrderMatchValidate (verifier) and then BatchSign (signer), with a
+// real in-process lnd signer. What BatchSign releases is combined with the
+// auctioneer's signatures for the accounts' CURRENT on-chain outputs and
+// judged by the engine.
+func c04RunMgrBatch(r *Run, p *c04Params) {
+	r.Evaluations++
+	r.Count("path/mgrbatch")
+	var c bCase
+	if err := json.Unmarshal(p.MgrCase, &c); err != nil {
+		r.Count("mgrbatch/bad-case")
+		return
+	}
+	tSigner := &c04MultiSigner{byPub: map[string]*c04Signer{}}
+	s := &bSession{
+		store:   &bStore{orders: map[order.Nonce]order.Order{}},
+		accts:   &bAcctStore{accts: map[[33]byte]*account.Account{}},
+		version: c.Env.Version,
+	}
+	ln := test.NewMockLightning()
+	ln.NodePubkey = c.Env.OurNode
+	m := order.NewManager(&order.ManagerConfig{
+		Store: &c04OrderStore{s.store}, AcctStore: s.accts, Lightning: ln, Wallet: &bWallet{}, Signer: tSigner,
+		BatchVersion: order.BatchVersion(c.Env.Version),
+	})
+	if err := m.Start(); err != nil {
+		r.Count("mgrbatch/start-error")
+		return
+	}
+	defer m.Stop()
+	s.mgr = m
+	if err := c.install(s); err != nil {
+		r.Count("mgrbatch/bad-case")
+		return
+	}
+
+	diffOf := map[string]*bDiff{}
+	for i := range c.Msg.Diffs {
+		d := &c.Msg.Diffs[i]
+		if _, dup := diffOf[d.AcctKey]; !dup {
+			diffOf[d.AcctKey] = d
+		}
+	}
+	var ents []*c04Ent
+	for i := range c.Env.Accounts {
+		a := &c.Env.Accounts[i]
+		acct, ok := s.accts.accts[bHex33(a.Key)]
+		tp, ap := c04BPriv(a.Key), c04BPriv(a.Auctioneer)
+		if !ok || tp == nil || ap == nil {
+			r.Count("mgrbatch/bad-case")
+			return
+		}
+		h := sha256.Sum256([]byte(a.Key))
+		acct.OutPoint = wire.OutPoint{Hash: h, Index: uint32(i)}
+		acct.TraderKey.KeyLocator = keychain.KeyLocator{Family: poolscript.AccountKeyFamily, Index: uint32(i)}
+		acct.LatestTx = wire.NewMsgTx(2)
+		sg := newC04Signer(tp)
+		tSigner.byPub[string(tp.PubKey().SerializeCompressed())] = sg
+		tSigner.locs = append(tSigner.locs, sg)
+		d, charged := diffOf[a.Key]
+		if !charged {
+			continue
+		}
+		e := &c04Ent{acct: acct, key: bHex33(a.Key),
+			k: &c04Keys{trader: tp, auct: ap, batchKey: acct.BatchKey, secret: acct.Secret, expiry: a.Expiry,
+				version: account.Version(a.Version), value: btcutil.Amount(a.Value)},
+			a: &c04BatchAcct{Version: a.Version, Trader: hex.EncodeToString(tp.Serialize()), Expiry: a.Expiry,
+				Value: a.Value, NewExpiry: d.NewExpiry, NewVersion: uint8(d.NewVersion),
+				EndingBalance: int64(d.EndingBalance)}}
+		ents = append(ents, e)
+		if d.NewExpiry != 0 {
+			r.Count("mgrbatch/new-expiry")
+		}
+		if uint8(d.NewVersion) != a.Version {
+			r.Count("mgrbatch/new-version")
+		}
+	}
+
+	batch, err := order.ParseRPCBatch(c.prepareMsg())
+	if err != nil {
+		r.Count("mgrbatch/parse-rejected")
+		return
+	}
+	tx := batch.BatchTX
+	prevOuts := []*wire.TxOut{{Value: 50_000_000, PkScript: append([]byte{0, 20}, make([]byte, 20)...)}}
+	for len(prevOuts) < len(tx.TxIn) {
+		prevOuts = append(prevOuts, prevOuts[0])
+	}
+	idxOf := map[wire.OutPoint]int{}
+	aSigners := map[string]*c04Signer{}
+	sess := map[[33]byte]*input.MuSig2SessionInfo{}
+	batch.ServerNonces = order.AccountNonces{}
+	var aSigner *c04Signer
+	for _, e := range ents {
+		idxOf[e.acct.OutPoint] = len(tx.TxIn)
+		tx.AddTxIn(&wire.TxIn{PreviousOutPoint: e.acct.OutPoint})
+		prevOuts = append(prevOuts, &wire.TxOut{Value: int64(e.k.value), PkScript: e.k.pkScript()})
+		ah := hex.EncodeToString(e.k.auct.Serialize())
+		if aSigners[ah] == nil {
+			aSigners[ah] = newC04Signer(e.k.auct)
+		}
+		aSigner = aSigners[ah]
+		e.asig = aSigner
+	}
+	batch.PreviousOutputs = prevOuts
+	for _, e := range ents {
+		if e.k.version >= account.VersionTaprootEnabled {
+			si, _, err := poolscript.TaprootMuSig2SigningSession(context.Background(), e.k.scriptVersion(),
+				e.k.expiry, e.k.trader.PubKey(), e.k.batchKey, e.k.secret, e.k.auct.PubKey(), e.asig,
+				&keychain.KeyLocator{}, nil)
+			if err != nil {
+				r.Count("mgrbatch/bad-case")
+				return
+			}
+			sess[e.key] = si
+			batch.ServerNonces[e.key] = si.PublicNonce
+		}
+	}
+
+	var (
+		sigs   order.BatchSignature
+		nonces order.AccountNonces
+		verr   error
+		serr   error
+	)
+	func() {
+		defer func() {
+			if x := recover(); x != nil {
+				verr = fmt.Errorf("panic: %v", x)
+			}
+		}()
+		verr = m.OrderMatchValidate(batch, c.Best)
+	}()
+	if verr != nil {
+		r.Count("mgrbatch/rejected")
+		return
+	}
+	r.Count("mgrbatch/accepted")
+	for i := range c.Env.Orders {
+		if c.Env.Orders[i].Sidecar != 0 {
+			r.Count("mgrbatch/with-sidecar-bid")
+			break
+		}
+	}
+	if len(ents) == 0 {
+		return
+	}
+	func() {
+		defer func() {
+			if x := recover(); x != nil {
+				serr = fmt.Errorf("panic: %v", x)
+				if os.Getenv("C04_DEBUG") != "" {
+					fmt.Fprintf(os.Stderr, "%s\n", debug.Stack())
+				}
+			}
+		}()
+		sigs, nonces, serr = m.BatchSign()
+	}()
+	if serr != nil {
+		r.Count("build-error/mgrbatch")
+		r.Violate("Pool could not sign the batch it accepted: "+serr.Error(), "C04/build-error", p)
+		return
+	}
+	c04FinishBatch(r, p, "mgrbatch", ents, nil, tx, prevOuts, idxOf, sess, aSigner, sigs, nonces)
+}
+
+// c04Ent is one account taking part in a batch.
+type c04Ent struct {
+	asig *c04Signer // the auctioneer's signer holding this account's MuSig2 session (nil = shared one)
+	k    *c04Keys
+	acct *account.Account
+	key  [33]byte
+	a    *c04BatchAcct
+}
+
 // c04RunBatch builds a batch transaction that spends several accounts of the
 // trader (mixed versions, in the order of Batch.AccountDiffs) and re-creates
 // them according to their diffs (ending balance, new expiry, new version,
@@ -941,22 +1148,16 @@ func c04RunBatch(r *Run, p *c04Params) {
 	r.Evaluations++
 	r.Count("path/batch")
 	r.Count(fmt.Sprintf("batch/accounts-%d", len(p.Accts)))
-	type ent struct {
-		k    *c04Keys
-		acct *account.Account
-		key  [33]byte
-		a    *c04BatchAcct
-	}
 	auct := c04Priv(p.Auct)
-	var ents []*ent
-	byKey := map[[33]byte]*ent{}
+	var ents []*c04Ent
+	byKey := map[[33]byte]*c04Ent{}
 	mixedTapFirst, sawTap := false, false
 	for i := range p.Accts {
 		a := &p.Accts[i]
 		k := &c04Keys{trader: c04Priv(a.Trader), auct: auct, batchKey: c04BatchKey(p.Batch, a.BatchInc),
 			secret: c04Secret(a.Secret), expiry: a.Expiry, version: account.Version(a.Version),
 			value: btcutil.Amount(a.Value)}
-		e := &ent{k: k, acct: k.acct(account.StateOpen), a: a}
+		e := &c04Ent{k: k, acct: k.acct(account.StateOpen), a: a}
 		h := sha256.Sum256([]byte(a.Trader))
 		e.acct.OutPoint = wire.OutPoint{Hash: h, Index: uint32(i)}
 		e.acct.TraderKey.KeyLocator = keychain.KeyLocator{Family: poolscript.AccountKeyFamily, Index: uint32(i)}
@@ -1081,15 +1282,25 @@ func c04RunBatch(r *Run, p *c04Params) {
 		return
 	}
 
-	// assemble and judge every account input
+	c04FinishBatch(r, p, "batch", ents, auct, tx, prevOuts, idxOf, sess, aSigner, sigs, nonces)
+}
+
+// c04FinishBatch: the auctioneer adds its signatures for each account's
+// CURRENT on-chain output to what the trader's batch signer released, the
+// witnesses are assembled with Pool's Spend* functions and every account
+// input is judged by the engine.
+func c04FinishBatch(r *Run, p *c04Params, path string, ents []*c04Ent, auct *btcec.PrivateKey, tx *wire.MsgTx,
+	prevOuts []*wire.TxOut, idxOf map[wire.OutPoint]int, sess map[[33]byte]*input.MuSig2SessionInfo,
+	aSigner *c04Signer, sigs order.BatchSignature, nonces order.AccountNonces) {
+
 	for _, e := range ents {
 		idx := idxOf[e.acct.OutPoint]
 		amount := int64(e.k.value)
 		spk := e.k.pkScript()
 		sp := &c04Spend{tx: tx, idx: idx, poolWit: true}
-		pj := &c04Params{Path: "batch", Kind: "joint", Version: e.a.Version, Trader: e.a.Trader, Auct: p.Auct,
+		pj := &c04Params{Path: path, Kind: "joint", Version: e.a.Version, Trader: e.a.Trader, Auct: p.Auct,
 			Batch: p.Batch, BatchInc: e.a.BatchInc, Secret: e.a.Secret, Expiry: e.a.Expiry, Value: e.a.Value,
-			LockTime: p.LockTime}
+			LockTime: tx.LockTime}
 		r.Count(fmt.Sprintf("version/%d", e.a.Version))
 		released, ok := sigs[e.key]
 		if !ok || len(released) == 0 {
@@ -1108,7 +1319,11 @@ func c04RunBatch(r *Run, p *c04Params) {
 				continue
 			}
 			copy(tp[:], released)
-			final, err := poolscript.TaprootMuSig2Sign(context.Background(), idx, sess[e.key], aSigner, tx,
+			as := aSigner
+			if e.asig != nil {
+				as = e.asig
+			}
+			final, err := poolscript.TaprootMuSig2Sign(context.Background(), idx, sess[e.key], as, tx,
 				prevOuts, &tn, &tp)
 			if err != nil {
 				r.Count("oracle/violation")
@@ -1335,6 +1550,10 @@ func c04Run(r *Run, p *c04Params) {
 		c04RunBatch(r, p)
 		return
 	}
+	if p.Path == "mgrbatch" {
+		c04RunMgrBatch(r, p)
+		return
+	}
 	ck := p.chainKeys()
 	var sp *c04Spend
 	func() {
@@ -1358,6 +1577,9 @@ func c04Run(r *Run, p *c04Params) {
 	r.Evaluations++
 	r.Count("path/" + p.Path)
 	r.Count(fmt.Sprintf("version/%d", p.Version))
+	if sp.buildErr == "" || strings.Contains(sp.buildErr, "modifications for expired accounts") {
+		c04EmitMgrWT(r, p, sp)
+	}
 	if sp.buildErr != "" {
 		r.Count("build-error/" + p.Path)
 		// Pool refusing to build a spend is only acceptable for the cases
@@ -1400,6 +1622,52 @@ func c04Run(r *Run, p *c04Params) {
 		amount = c04Amount
 	}
 	c04Judge(r, p, p, ck, sp, amount, sp.prevOuts)
+}
+
+var c04Methods = map[string]string{"close": "CloseAccount", "renew": "RenewAccount",
+	"withdraw": "WithdrawAccount", "deposit": "DepositAccount"}
+
+// c04WitnessShape names the witness type of a witness Pool built for an
+// account of the given version, from its shape alone.
+func c04WitnessShape(version uint8, w wire.TxWitness) string {
+	switch {
+	case version == 0 && len(w) == 3 && len(w[0]) == 0:
+		return "expiryWitness"
+	case version == 0 && len(w) == 3:
+		return "multiSigWitness"
+	case version > 0 && len(w) == 1:
+		return "muSig2Taproot"
+	case version > 0 && len(w) == 3:
+		return "expiryTaproot"
+	}
+	return fmt.Sprintf("shape-%d", len(w))
+}
+
+// c04EmitMgrWT compares the witness type, lock time and input sequence a
+// manager method chose (observed on the transaction it built, or its refusal)
+// with the model's tables.
+func c04EmitMgrWT(r *Run, p *c04Params, sp *c04Spend) {
+	method, ok := c04Methods[p.Path]
+	if !ok {
+		return
+	}
+	sk := p.signKeys()
+	st := account.StateOpen
+	if p.StateExpired {
+		st = account.StateExpired
+	}
+	op := fmt.Sprintf("C04 mgrwt %s %d %d %d %d", method, p.Version, st, sk.expiry, p.LockTime)
+	if sp.buildErr != "" {
+		if p.StateExpired && p.Path != "close" {
+			return // refused before the witness type is chosen (state check)
+		}
+		name, _, _ := account.VerifC04DetermineWitnessType(account.Version(p.Version), st, sk.expiry, p.LockTime)
+		r.Emit(op, name+" err")
+	} else {
+		r.Emit(op, fmt.Sprintf("%s %d %d", c04WitnessShape(p.Version, sp.tx.TxIn[sp.idx].Witness),
+			sp.tx.LockTime, sp.tx.TxIn[sp.idx].Sequence))
+	}
+	r.Count("mgrwt/" + method)
 }
 
 // c04Judge runs the real engine on input sp.idx of sp.tx against the chain
@@ -1591,16 +1859,18 @@ func c04Gen(r *Run) *c04Params {
 	lts := []uint32{p.Expiry - 1, p.Expiry, p.Expiry + 1}
 	p.LockTime = lts[r.Rng.Intn(3)]
 	switch x := r.Rng.Intn(100); {
-	case x < 40:
+	case x < 36:
 		p.Path = "direct"
-	case x < 60:
+	case x < 52:
 		p.Path = "close"
-	case x < 70:
+	case x < 60:
 		p.Path = "renew"
-	case x < 76:
+	case x < 66:
 		p.Path = "withdraw"
-	case x < 82:
+	case x < 72:
 		p.Path = "deposit"
+	case x < 80:
+		p.Path = "mgrbatch"
 	default:
 		p.Path = "batch"
 	}
@@ -1644,6 +1914,19 @@ func c04Gen(r *Run) *c04Params {
 		if r.Rng.Intn(2) == 0 {
 			p.NewExpiryDelta = uint32(1000 + r.Rng.Intn(3000))
 		}
+	case "mgrbatch":
+		p.Kind = "joint"
+		g := &bGen{rng: r.Rng, prop: "C04"}
+		var c *bCase
+		for try := 0; try < 10; try++ {
+			c = g.genCase(g.pickVersion(), try)
+			if len(c.Devs) == 0 {
+				break
+			}
+		}
+		js, _ := json.Marshal(c)
+		p.MgrCase = js
+		return p
 	case "batch":
 		p.Kind = "joint"
 		p.LockTime = []uint32{0, 0, uint32(r.Rng.Intn(1 << 20))}[r.Rng.Intn(3)]
@@ -1845,6 +2128,9 @@ func runC04(r *Run) {
 		return
 	}
 	for c := 0; c < r.N; c++ {
+		if len(r.Violations) >= 20 {
+			break // enough failing inputs; do not spend the budget on more
+		}
 		p := c04Gen(r)
 		c04Run(r, p)
 		// classification of the witness Pool built and of a random one
